@@ -6,6 +6,7 @@
   through the SLSQP→trust-constr retry.  `ConOk` / `BndOk` (Lemmas/Solve.lean) say "within the tolerance
   the code states": atol + rtol·max(1, |value|) with atol = tol or 1e-6, rtol = 1e-6.
 -/
+import Optyx.Props.Dispatch
 import Optyx.Lemmas.Solve
 import Optyx.Drive.Solve   -- one build of this module also builds the driver the check runs
 
